@@ -117,6 +117,7 @@ func runC12(c *Ctx) {
 		{Op: "many", Batch: []Mem{{Kind: "fresh", V: 2, K: 4}, {Kind: "invalid", V: 3, K: 2}}},
 		{Op: "reopen"},
 		{Op: "getabsent"},
+		{Op: "insnan", V: 2, K: 4},
 	}
 	opt := ObsOpt{ErrProbes: true, Integrity: true, Trees: true}
 	trace := func(cfg Cfg, path []Op) (string, []Violation) {
